@@ -94,6 +94,9 @@ func genSplit(g *genCtx) {
 	n := 0
 	emit := func(c Case) {
 		if g.mine(n) {
+			if k := caseStr(c, "k"); n%3 == 1 && (k == "split" || k == "batch") {
+				c["pre"] = 1 + n/3 // the call follows a series of refused codec calls (afterRefusals)
+			}
 			g.emit(c)
 		}
 		n++
@@ -172,7 +175,8 @@ func genSplit(g *genCtx) {
 		}
 		// invalid coding numbers, unrepresentable texts (fallback to UCS-2)
 		for _, proto := range []string{"cmpp", "smpp"} {
-			for _, req := range []int{2, 4, 7, 16, 25, 255, -1, 100} {
+			for _, req := range []int{2, 4, 7, 16, 25, 255, -1, 100, 256, 257, 259, 264, 265, 271, 355, 512, -248, -256, 1 << 20, 1<<20 + 8} {
+				// (numbers whose low octet is a valid coding are invalid all the same: the type is an int)
 				for _, L := range []int{0, 1, 70, 71, 67 * 3} {
 					emit(Case{"k": "split", "proto": proto, "req": req, "ref": 9, "text": planText(r, plans[1], 2*L, nil)})
 				}
@@ -280,6 +284,9 @@ func genSplit(g *genCtx) {
 }
 
 func runSplit(c Case, tr *Tracer) {
+	if k := caseInt(c, "pre"); k > 0 {
+		afterRefusals(k)
+	}
 	switch caseStr(c, "k") {
 	case "split":
 		runSplitCase(c, tr)
